@@ -25,50 +25,65 @@ VARIABLES queue,      \* files not yet handed out
           printed,    \* what the consumer has printed, in order
           scanned, skipped,
           walkDone, consumerDone,
-          taken       \* history: how often each file was handed out
-vars == <<queue, cur, left, chan, printed, scanned, skipped, walkDone, consumerDone, taken>>
+          taken,      \* history: how often each file was handed out
+          acc         \* the shared tally that decides the exit status of `scan` (ScanWithConfig.error_count):
+                      \* acc.total is the shared counter, acc.base[t] what thread t read when it took its file
+vars == <<queue, cur, left, chan, printed, scanned, skipped, walkDone, consumerDone, taken, acc>>
 
 Items(f) == IF Outcome[f] = FailOutcome THEN 0 ELSE Outcome[f]
 
 Init == /\ queue = Files /\ cur = [t \in Threads |-> NoFile] /\ left = [t \in Threads |-> 0]
         /\ chan = <<>> /\ printed = <<>> /\ scanned = 0 /\ skipped = 0
         /\ walkDone = FALSE /\ consumerDone = FALSE /\ taken = [f \in Files |-> 0]
+        /\ acc = [total |-> 0, base |-> [t \in Threads |-> 0]]
 
 \* file_start: a walker thread receives the next file of the walk
 Take(t, f) == /\ cur[t] = NoFile /\ f \in queue /\ ~walkDone
               /\ queue' = queue \ {f} /\ cur' = [cur EXCEPT ![t] = f]
               /\ left' = [left EXCEPT ![t] = Items(f)]
               /\ scanned' = scanned + 1 /\ taken' = [taken EXCEPT ![f] = @ + 1]
+              /\ acc' = [acc EXCEPT !.base[t] = acc.total]
               /\ UNCHANGED <<chan, printed, skipped, walkDone, consumerDone>>
 \* file_skip: produce_item failed; the file is skipped, the walk continues
 Fail(t) == /\ cur[t] # NoFile /\ Outcome[cur[t]] = FailOutcome
            /\ skipped' = skipped + 1 /\ cur' = [cur EXCEPT ![t] = NoFile]
-           /\ UNCHANGED <<queue, left, chan, printed, scanned, walkDone, consumerDone, taken>>
+           /\ UNCHANGED <<queue, left, chan, printed, scanned, walkDone, consumerDone, taken, acc>>
 \* send: one item of the current file goes into the channel
 Send(t) == /\ cur[t] # NoFile /\ Outcome[cur[t]] # FailOutcome /\ left[t] > 0
            /\ chan' = Append(chan, <<cur[t], Items(cur[t]) - left[t]>>)
            /\ left' = [left EXCEPT ![t] = @ - 1]
-           /\ UNCHANGED <<queue, cur, printed, scanned, skipped, walkDone, consumerDone, taken>>
-\* file_done
-Finish(t) == /\ cur[t] # NoFile /\ Outcome[cur[t]] # FailOutcome /\ left[t] = 0
+           /\ UNCHANGED <<queue, cur, printed, scanned, skipped, walkDone, consumerDone, taken, acc>>
+\* file_done.  The file's findings are added to the shared tally with one atomic read-modify-write (fetch_add);
+\* the code does it at the end of produce_item, before the sends - atomic additions commute, so the model may
+\* place it anywhere between Take and Finish
+FinishWith(t, newTotal) ==
+             /\ cur[t] # NoFile /\ Outcome[cur[t]] # FailOutcome /\ left[t] = 0
              /\ cur' = [cur EXCEPT ![t] = NoFile]
+             /\ acc' = [acc EXCEPT !.total = newTotal]
              /\ UNCHANGED <<queue, left, chan, printed, scanned, skipped, walkDone, consumerDone, taken>>
+Finish(t) == FinishWith(t, acc.total + Items(cur[t]))
+\* the variant the model must reject (witness, MC_C17_witness.cfg): the tally read at Take plus the file's
+\* findings is written back - a read-modify-write split over two steps
+FinishSplit(t) == FinishWith(t, acc.base[t] + Items(cur[t]))
 \* walk_done: the walk is exhausted and every thread is idle: all senders are dropped
 WalkDone == /\ ~walkDone /\ queue = {} /\ \A t \in Threads : cur[t] = NoFile
             /\ walkDone' = TRUE
-            /\ UNCHANGED <<queue, cur, left, chan, printed, scanned, skipped, consumerDone, taken>>
+            /\ UNCHANGED <<queue, cur, left, chan, printed, scanned, skipped, consumerDone, taken, acc>>
 \* recv
 Recv == /\ chan # <<>> /\ ~consumerDone
         /\ printed' = Append(printed, Head(chan)) /\ chan' = Tail(chan)
-        /\ UNCHANGED <<queue, cur, left, scanned, skipped, walkDone, consumerDone, taken>>
+        /\ UNCHANGED <<queue, cur, left, scanned, skipped, walkDone, consumerDone, taken, acc>>
 \* chan_closed + consume_done: the channel is empty and closed
 ConsumerDone == /\ walkDone /\ chan = <<>> /\ ~consumerDone
                 /\ consumerDone' = TRUE
-                /\ UNCHANGED <<queue, cur, left, chan, printed, scanned, skipped, walkDone, taken>>
+                /\ UNCHANGED <<queue, cur, left, chan, printed, scanned, skipped, walkDone, taken, acc>>
 
 Next == \/ \E t \in Threads : (\E f \in Files : Take(t, f)) \/ Fail(t) \/ Send(t) \/ Finish(t)
         \/ WalkDone \/ Recv \/ ConsumerDone
 Spec == Init /\ [][Next]_vars /\ WF_vars(Next)
+NextSplit == \/ \E t \in Threads : (\E f \in Files : Take(t, f)) \/ Fail(t) \/ Send(t) \/ FinishSplit(t)
+             \/ WalkDone \/ Recv \/ ConsumerDone
+SpecSplit == Init /\ [][NextSplit]_vars
 
 \* ---- C17 --------------------------------------------------------------------
 ExactlyOnce == /\ \A f \in Files : taken[f] <= 1
@@ -80,6 +95,8 @@ Union == consumerDone =>
             /\ Len(printed) = Cardinality(AllItems)                     \* no duplicates
             /\ skipped = Cardinality({ f \in Files : Outcome[f] = FailOutcome })
             /\ scanned = Cardinality(Files)
+\* the tally is the number of findings of the tree: the exit status (tally > 0) is the OR of the per-file runs
+Tally == walkDone => acc.total = Cardinality(AllItems)
 \* items of one file arrive in order
 PerFileOrder == \A a, b \in 1..Len(printed) : (a < b /\ printed[a][1] = printed[b][1]) => printed[a][2] < printed[b][2]
 Terminates == <>consumerDone
